@@ -122,6 +122,90 @@ def interceptor_inst(tier):
                 extra_replace=['vhook_in', 'vhook_out', 'app_cb_stub'], note='callback: OUT at entry, application function, IN at exit')
 
 
+def single_hook_insts(only, tier):
+    """an embedder may define only one of the two hooks: the one that is defined is still announced exactly once per crossing, on
+    the right side of the sandboxed call / callback body (units compiled with only RLBOX_TRANSITION_ACTION_<only> defined)"""
+    o = only.lower()
+    hook = [h for h in HOOKS.strip().split('\nvoid ') if h.replace('void ', '').startswith('vhook_' + o)][0]
+    hook = ('' if hook.startswith('void ') else 'void ') + hook + '\n'
+    other = 'g_outs' if o == 'in' else 'g_ins'
+    mine = 'g_ins' if o == 'in' else 'g_outs'
+    fr = ('g_ins, g_events, g_in_at, g_in_kind, g_in_name, g_in_ptr, g_in_state' if o == 'in' else 'g_outs, g_events, g_out_at, g_out_kind, g_out_name, g_out_ptr, g_out_state')
+    out = []
+    # invoke: IN before the call, OUT after it
+    stub = ('backend impl_invoke_with_func_ptr(stub)', _is('impl_invoke_with_func_ptr'),
+            '__CPROVER_ensures(g_gcalls == __CPROVER_old(g_gcalls) + 1 && g_call_at == g_events && $ret == g_gret)\n__CPROVER_assigns(g_gcalls, g_call_at)')
+    cl = sb_req('$this') + [
+        ('fresh', '__CPROVER_requires(g_ins == 0 && g_outs == 0 && g_events == 0 && g_gcalls == 0)'),
+        ('the_defined_hook_is_announced_once_on_its_side_of_the_call', '__CPROVER_ensures(%s == 1 && %s == 0 && g_events == 1 && g_gcalls == 1 && g_call_at == %d && g_%s_kind == TR_INVOKE && g_%s_ptr == (unsigned long)$1)' % (mine, other, 1 if o == 'in' else 0, o, o)),
+        ('frame', '__CPROVER_assigns(%s, g_gcalls, g_call_at)' % fr)]
+    h = REGIONS + SB_DECL + ('  g_ins = 0; g_outs = 0; g_events = 0; g_gcalls = 0; int in_ret; g_gret = in_ret; long in_a; uintptr_t in_fn; g_noabort = 0;\n'
+                             '  struct %s r = $ROOT(&sb, "f", (void *)in_fn, &in_a);\n' % cs('rlbox::tainted<int, rlbox::vsbx>'))
+    out.append(Inst('c19_invoke_only_%s_hook_defined' % o, 'rlbox_sandbox<vsbx>& s, void* fp, long a', 's.INTERNAL_invoke_with_func_ptr<int(long)>("f", fp, a);', cl, h,
+                    leaves=['dynamic_check', stub], prop=PROP, root_name='INTERNAL_invoke_with_func_ptr', tier=tier, pre=GH + hook, facts=FACTS,
+                    opts={'extern_functions': ('vhook_' + o,)}, extra_replace=['vhook_' + o]))
+    # callback: OUT before the body, IN after it
+    TL = cs('rlbox::tainted<long, rlbox::vsbx>')
+    TI = cs('rlbox::tainted<int, rlbox::vsbx>')
+    post = ('struct %s app_cb_stub(void *target, struct %s *sb, struct %s a0)\n'
+            '__CPROVER_ensures(g_gcalls == __CPROVER_old(g_gcalls) + 1 && g_call_at == g_events && __CPROVER_return_value.data == g_gret)\n'
+            '__CPROVER_assigns(g_gcalls, g_call_at);\n' % (TI, SB, TL))
+    ctx = ('backend impl_get_executed_callback_sandbox_and_key(stub)', _is('impl_get_executed_callback_sandbox_and_key'),
+           '__CPROVER_ensures(__CPROVER_pointer_equals($ret.first, g_cur_sbp))\n__CPROVER_ensures((unsigned long)$ret.second == g_cur_key)\n__CPROVER_assigns()')
+    cl = [('fresh', '__CPROVER_requires(g_ins == 0 && g_outs == 0 && g_events == 0 && g_gcalls == 0 && __CPROVER_r_ok((struct %s *)g_cur_sbp, sizeof(struct %s)))' % (SB, SB)),
+          ('the_defined_hook_is_announced_once_on_its_side_of_the_body', '__CPROVER_ensures(%s == 1 && %s == 0 && g_events == 1 && g_gcalls == 1 && g_call_at == %d && g_%s_kind == TR_CALLBACK && g_%s_ptr == g_cur_key)' % (mine, other, 0 if o == 'in' else 1, o, o)),
+          ('frame', '__CPROVER_assigns(%s, g_gcalls, g_call_at)' % fr)]
+    h = ('  struct %s sb; g_cur_sbp = &sb; uintptr_t in_key; g_cur_key = in_key;\n'
+         '  g_ins = 0; g_outs = 0; g_events = 0; g_gcalls = 0; int in_ret; g_gret = in_ret; int in_guest_arg; g_noabort = 0; g_backend_nonnull = 0; g_expect_example = 0;\n'
+         '  int r = $ROOT(in_guest_arg);\n' % SB)
+    pick = lambda tu, fn: find_func(tu, 'sandbox_callback_interceptor', 'rlbox::rlbox_sandbox<rlbox::vsbx>')
+    out.append(Inst('c19_callback_only_%s_hook_defined' % o, 'rlbox_sandbox<vsbx>& s, tainted<int, vsbx> (*f)(rlbox_sandbox<vsbx>&, tainted<long, vsbx>)', 's.register_callback(f);', cl, h,
+                    leaves=['dynamic_check', ctx], prop=PROP, root_name='sandbox_callback_interceptor', tier=tier, pre=GH + ' void *g_cur_sbp; unsigned long g_cur_key;\n' + hook, post_protos=post,
+                    root_pick=pick, facts=FACTS, opts={'extern_functions': ('vhook_' + o,), 'indirect_stubs': {'*': 'app_cb_stub'}},
+                    extra_replace=['vhook_' + o, 'app_cb_stub']))
+    pre_cpp = ('void vhook_%s(int kind, const char* name, void* ptr, void* state);\n#define RLBOX_TRANSITION_ACTION_%s(k, n, p, s) ::vhook_%s((int)(k), n, p, s)\n' % (o, only, o))
+    return Unit('C19_only_%s_hook' % o, out, pre_cpp=pre_cpp)
+
+
+def exceptional_inst(which, tier):
+    """the same two functions under L-throw (DESIGN.md 3.2): every abort point and the sandboxed call / callback body may end in an
+    exception; whatever the exit, the crossing that was announced is closed by exactly one notification of the other kind, with the
+    same kind and function identity, and every guard has run"""
+    base = invoke_inst(tier) if which == 'invoke' else interceptor_inst(tier)
+    first, second = ('in', 'out') if which == 'invoke' else ('out', 'in')
+    dyn = ('dynamic_check(throws when the check fails)', _is('dynamic_check'),
+           '__CPROVER_ensures(g_exc == !$0)\n__CPROVER_assigns(g_exc)')
+    keep = [c for c in base.contract if c[0] in ('wf', 'sandbox_obj', 'fresh', 'every_guard_has_run', 'frame') or c[1].startswith('__CPROVER_requires')]
+    keep = [(k, t.replace('__CPROVER_assigns(', '__CPROVER_assigns(g_exc, ') if k == 'frame' else t) for k, t in keep]
+    kind = 'TR_INVOKE' if which == 'invoke' else 'TR_CALLBACK'
+    cl = keep[:-1] + [
+        ('no_exception_in_flight_at_entry', '__CPROVER_requires(!g_exc)'),
+        ('announced_once_and_closed_once_on_every_exit', '__CPROVER_ensures(g_ins == 1 && g_outs == 1 && g_events == 2 && g_%s_at == 0 && g_%s_at == 1)' % (first, second)),
+        ('closing_notification_matches_the_opening_one', '__CPROVER_ensures(g_in_kind == %s && g_out_kind == %s && g_in_ptr == g_out_ptr && g_in_name == g_out_name)' % (kind, kind)),
+        ('sandboxed_code_or_callback_body_runs_at_most_once_inside_the_bracket', '__CPROVER_ensures(g_gcalls <= 1 && (g_gcalls == 1 ==> g_call_at == 1))'),
+        keep[-1]]
+    base.contract = cl
+    base.name = 'c19_%s_brackets_exceptional_exit' % ('invoke' if which == 'invoke' else 'callback')
+    leaves = []
+    for lf in base.leaves:
+        if isinstance(lf, tuple) and lf[0].startswith('dynamic_check'):
+            leaves.append(dyn)
+        elif isinstance(lf, tuple) and 'impl_invoke_with_func_ptr' in lf[0]:
+            # the sandboxed call may end in an exception (a callback body that aborted inside it)
+            leaves.append((lf[0] + ' may throw', lf[1], lf[2].replace('__CPROVER_assigns(', '__CPROVER_assigns(g_exc, ')))
+        else:
+            leaves.append(lf)
+    base.leaves = leaves
+    base.opts = dict(base.opts, exc_model=True)
+    base.pre = base.pre + ' _Bool g_exc;\n'
+    if base.post_protos:
+        base.post_protos = base.post_protos.replace('__CPROVER_assigns(g_gcalls, g_call_at, sb->transition_state)', '__CPROVER_assigns(g_exc, g_gcalls, g_call_at, sb->transition_state)')
+    base.harness = base.harness.replace('g_ins = 0;', 'g_exc = 0; g_ins = 0;', 1)
+    base.replay = None
+    base.note = 'L-throw: exits by exception at every abort point and out of the %s; the guard destructors run as lowered from the real scope_exit' % ('sandboxed call' if which == 'invoke' else 'callback body')
+    return base
+
+
 # ---------------------------------------------------------------- transition timing (RLBOX_MEASURE_TRANSITION_TIMES)
 TIMING_CPP = '#define RLBOX_MEASURE_TRANSITION_TIMES\n'
 TG = PRE_GHOST + ''' unsigned g_armed_guards; unsigned g_records, g_gcalls, g_clock_reads; int g_rec_kind; unsigned long g_rec_name, g_rec_ptr; long g_rec_ns; unsigned g_rec_after_calls; int g_gret;
@@ -183,16 +267,16 @@ def timing_units(tier):
 
 
 def units(tier):
-    return [Unit('C19_transitions', [invoke_inst(tier), interceptor_inst(tier), per_sandbox_state_inst(tier)], pre_cpp=PRE_CPP)] + timing_units(tier)
+    return [Unit('C19_transitions', [invoke_inst(tier), interceptor_inst(tier), per_sandbox_state_inst(tier), exceptional_inst('invoke', tier), exceptional_inst('callback', tier)], pre_cpp=PRE_CPP), single_hook_insts('IN', tier), single_hook_insts('OUT', tier)] + timing_units(tier)
 
 
 ASSUMPTIONS = [
-    'L-dtor / L-throw: the destructor of an armed scope_exit guard runs exactly once when its scope is left, by return or by unwinding (C++ language guarantee, not visible to a C verifier). For the exceptional exit the proved part is: at every abort point inside the crossing exactly one notification has been announced and its closing guard is armed',
+    'L-dtor / L-throw: the destructor of a scope_exit guard runs exactly once when its scope is left, by return or by unwinding (C++ language guarantee, not visible to a C verifier). Exceptional exits are modelled (instances *_exceptional_exit): a throwing callee returns with the ghost flag g_exc set, the function then leaves at once through the lowered destructors of the guards constructed so far; dynamic_check throws exactly when its check is false, the sandboxed call / callback body may always throw; std::uncaught_exceptions() is that flag',
     'hooks are recording stubs (they return); the backend call / application callback are stubs',
     'transition timing (RLBOX_MEASURE_TRANSITION_TIMES): std::chrono as an opaque clock returning arbitrary tick counts (M-chrono), transition_times.push_back as a recording stub; the recorded duration itself is not specified',
 ]
 TRUSTED = ['C++ scope-exit and unwinding order for the guard object']
 MANIFEST = {
     'level_text': 'With the transition hooks bound to recording stubs, the instantiated invoke glue is proved to announce exactly one IN before and exactly one OUT after the backend call (and the callback interceptor one OUT before and one IN after the application function), with kind and function identity equal in both notifications and each carrying the per-sandbox transition state that is current at that moment (the crossing itself may change it), on every normally returning path; and every abort point (argument/result conversion checks) is proved to lie strictly inside the bracket, where a closing guard is armed - a ghost counts the scope-exit guards that are alive (incremented where the guard object is created, decremented where its destructor runs), and every abort point, the backend call and the callback body require it to be 1. Nesting follows by composing these contracts.',
-    'level_note': 'Reduced claim: the closing notification on an exceptional exit relies on the C++ guarantee that the armed guard\'s destructor runs during unwinding (trusted lowering L-dtor/L-throw). With RLBOX_MEASURE_TRANSITION_TIMES the same two functions are proved to read the clock at entry and exit and to append exactly one timing record per crossing, after the backend call / callback body, carrying the kind, name and function identity of that crossing.',
+    'level_note': 'Exits by exception are proved on the L-throw model (instances *_exceptional_exit: announced once and closed once with the same kind and identity on every exit, the real scope_exit destructor and lambda body run where unwinding would run them); what stays trusted is that C++ runs those destructors during unwinding in that order. Configurations with only one of the two hooks defined are separate units. With RLBOX_MEASURE_TRANSITION_TIMES the same two functions are proved to read the clock at entry and exit and to append exactly one timing record per crossing, after the backend call / callback body, carrying the kind, name and function identity of that crossing.',
 }
